@@ -282,7 +282,7 @@ def run_property(pid, tier, seed):
 def evidence_dir():
     # runs against a scratch copy (VERIF_REPO=...) must not overwrite the evidence of /repo itself
     if os.path.realpath(REPO) != '/repo':
-        return os.path.join(VERIF, '.work', 'evidence_scratch')
+        return os.path.join(engine.WORK, 'evidence_scratch')
     return os.path.join(VERIF, 'evidence')
 
 
